@@ -22,6 +22,12 @@ pub struct Spec {
     /// kind. The dependency relation is the same in all three cases.
     #[serde(default)]
     pub redeclare: u8,
+    /// How the graph value handed to the checks was obtained. 0: straight from `build()`;
+    /// 1: a clone of the built graph (the original dropped); 2: built on another OS thread and
+    /// moved here; 3: `DerefMut::deref_mut` called on it once (nothing changed through it);
+    /// 4 / 5 (n = 0 only): `FnGraph::new()` / `FnGraph::default()` instead of a builder.
+    #[serde(default)]
+    pub prov: u8,
 }
 
 impl Spec {
@@ -31,6 +37,7 @@ impl Spec {
             edges: edges.iter().enumerate().map(|(k, &(a, b))| (a, b, k % 2 == 1)).collect(),
             decl: vec![],
             redeclare: 0,
+            prov: 0,
         }
     }
 
@@ -57,16 +64,54 @@ impl Spec {
             .iter()
             .map(|d| d.iter().map(|a| ["-", "R", "W"][*a as usize]).collect::<String>())
             .collect();
-        format!("n={} edges=[{}] decl=[{}]{}", self.n, e.join(","), d.join(","), match self.redeclare {
-            0 => "",
-            1 => " (every edge declared again through the batch form)",
-            _ => " (every edge declared again through the batch form with the other kind)",
-        })
+        format!(
+            "n={} edges=[{}] decl=[{}]{}{}",
+            self.n,
+            e.join(","),
+            d.join(","),
+            match self.redeclare {
+                0 => "",
+                1 => " (every edge declared again through the batch form)",
+                _ => " (every edge declared again through the batch form with the other kind)",
+            },
+            match self.prov {
+                0 => "",
+                1 => " (a clone of the built graph)",
+                2 => " (built on another thread and moved)",
+                3 => " (deref_mut() called once)",
+                4 => " (FnGraph::new())",
+                _ => " (FnGraph::default())",
+            }
+        )
     }
 }
 
-/// Builds the real graph through the public builder API only.
+/// Builds the real graph through the public API only, with the provenance the spec asks for.
 pub fn build(spec: &Spec) -> FnGraph<Node> {
+    match spec.prov {
+        0 => build_plain(spec),
+        1 => {
+            let g = build_plain(spec);
+            let c = g.clone();
+            drop(g);
+            c
+        }
+        2 => {
+            let s2 = spec.clone();
+            std::thread::scope(|sc| sc.spawn(move || crate::exec::catch_quiet(|| build_plain(&s2))).join().expect("builder thread")).unwrap_or_else(|m| panic!("{m}"))
+        }
+        3 => {
+            let mut g = build_plain(spec);
+            let _ = std::ops::DerefMut::deref_mut(&mut g);
+            g
+        }
+        4 if spec.n == 0 => FnGraph::new(),
+        5 if spec.n == 0 => FnGraph::default(),
+        _ => build_plain(spec),
+    }
+}
+
+fn build_plain(spec: &Spec) -> FnGraph<Node> {
     let mut b = FnGraphBuilder::new();
     let ids: Vec<_> = (0..spec.n)
         .map(|i| b.add_fn(Node::new(i, spec.acc(i).to_vec())))
